@@ -119,6 +119,7 @@ def run(ctx):
         "operator cells (23 ops x 10 types x existing value type / 14 forms)": sum(1 for r in obs.ops for x in r["interp"] if x is not None),
         "operator cells with a provenance of the left operand (23 ops x types x 6 provenances x lit/local value)": sum(1 for r in obs.opsleft for x in r["interp"] if x is not None),
         "operator cells with other literal spellings / header sub-field (23 ops x 10 types x 10 variants)": sum(1 for r in obs.variants for x in r["interp"] if x is not None),
+        "identifier-argument cells (built-ins with an ID argument + add x %d identifiers x 9 scopes, strict)" % len(T.ID_IDENTS): sum(1 for r in obs.idargs for x in r["interp"] if x is not None),
         "coercion cells (3 contexts x 9 expected types x existing value type/form)": sum(1 for r in obs.coerce for x in r["interp"] if x is not None),
         "inferred-scope cells (use x depth 1..3 x 36 pairs of lifecycle subs)": sum(1 for r in obs.inferred for x in r["interp"] if x is not None),
         "inferred-scope cells (use x 84 triples, thorough)": sum(1 for r in obs.inferred3 for x in r["interp"] if x is not None),
